@@ -6,6 +6,10 @@ CONSTANTS
   MAXPINGS = 4
   BODIES <- MCBodies
   MULTS <- MCMults
+  ACCTS <- MCAccts
+  MAXSSENT = 5
+  MAXACCTS = 3
+  POSTPONE = TRUE
   CHANCAP = 6
 SPECIFICATION LSpec
 CONSTRAINT Cap
